@@ -123,18 +123,23 @@ func getPath(v *AV, p interface{}) *AV {
 	return v
 }
 
-func checkC13(rc *Run) error {
-	rc.Level = "model_checking"
-	type vec struct {
-		Doc      interface{}
-		Resolved *AV
-		DevExpl  *AV
-		DevTrav  *AV
-		Paths    []interface{}
-	}
-	var vecs []vec
+type anchorVec struct {
+	Doc      interface{}
+	Resolved *AV
+	DevExpl  *AV
+	DevTrav  *AV
+	Paths    []interface{}
+}
+
+// loadAnchorVectors runs Gen_Anchors (with its laws when withLaws) and returns the well-typed documents
+func loadAnchorVectors(rc *Run, withLaws bool) ([]anchorVec, *TLCResult, error) {
+	var vecs []anchorVec
 	var mu sync.Mutex
-	res, err := RunTLC(rc, TLCOpts{Name: "gen", Module: "Gen_Anchors", Cfg: "INIT Init\nNEXT Next\nINVARIANTS ResolvedIsPlain ExplicitWins\nCHECK_DEADLOCK FALSE\n", Timeout: 10 * time.Minute,
+	cfg := "INIT Init\nNEXT Next\nCHECK_DEADLOCK FALSE\n"
+	if withLaws {
+		cfg = "INIT Init\nNEXT Next\nINVARIANTS ResolvedIsPlain ExplicitWins\nCHECK_DEADLOCK FALSE\n"
+	}
+	res, err := RunTLC(rc, TLCOpts{Name: "anchors", Module: "Gen_Anchors", Cfg: cfg, Timeout: 10 * time.Minute,
 		OnVector: func(js []byte) {
 			var m M
 			if json.Unmarshal(js, &m) != nil {
@@ -143,7 +148,7 @@ func checkC13(rc *Run) error {
 			if ill, _ := m["ill"].(bool); ill {
 				return // ill-typed merges: no value defined, exercised by C11 only
 			}
-			v := vec{Doc: m["doc"], Resolved: fromSpec(m["resolved"]), DevExpl: fromSpec(m["devExplode"]), DevTrav: fromSpec(m["devTraverse"])}
+			v := anchorVec{Doc: m["doc"], Resolved: fromSpec(m["resolved"]), DevExpl: fromSpec(m["devExplode"]), DevTrav: fromSpec(m["devTraverse"])}
 			if ps, ok := m["paths"].([]interface{}); ok {
 				v.Paths = ps
 			}
@@ -152,14 +157,25 @@ func checkC13(rc *Run) error {
 			mu.Unlock()
 		}})
 	if err != nil {
-		return err
+		return nil, res, err
 	}
 	if res.InvariantViolated != "" {
-		return machinery("Anchors.tla violates %s\n%s", res.InvariantViolated, res.ErrorText)
+		return nil, res, machinery("Anchors.tla violates %s\n%s", res.InvariantViolated, res.ErrorText)
 	}
 	if len(vecs) == 0 {
-		return machinery("Gen_Anchors produced no vectors")
+		return nil, res, machinery("Gen_Anchors produced no vectors")
 	}
+	sort.Slice(vecs, func(i, j int) bool { return renderATree(vecs[i].Doc) < renderATree(vecs[j].Doc) })
+	return vecs, res, nil
+}
+
+func checkC13(rc *Run) error {
+	rc.Level = "model_checking"
+	vecs, res, err := loadAnchorVectors(rc, true)
+	if err != nil {
+		return err
+	}
+	var mu sync.Mutex
 	rc.Logf("TLC: ResolvedIsPlain/ExplicitWins hold; %d documents", len(vecs))
 	nsh := rc.Pick(2, 1)
 	reads := 0
